@@ -166,3 +166,414 @@ E('E14a', 'causality checks reordered (blur first)', ['C14', 'C05'],
         } else {
             mono - as_of
         };''')])
+
+# ---------------------------------------------------------------- C02 (relative to the repaired tree)
+FENCE_W = '            atomic::fence(atomic::Ordering::Release);\n'
+FENCE_R = '            atomic::fence(atomic::Ordering::Acquire);\n'
+M('M02a', 'writer: release fence removed', ['C02', 'C01'], [(WRITER, FENCE_W, '')], {'C02': ['C02.S1'], 'C01': ['C01.I']})
+M('M02b', 'reader: acquire fence removed', ['C02', 'C01'], [(READER, FENCE_R, '')], {'C02': ['C02.S2'], 'C01': ['C01.I']})
+M('M02c', 'writer: final generation store Relaxed', ['C02'],
+  [(WRITER, '''            generation.store(gen, atomic::Ordering::Release);
+        }
+    }''', '''            generation.store(gen, atomic::Ordering::Relaxed);
+        }
+    }''')], {'C02': ['C02.S1']})
+M('M02d', 'reader: first generation load Relaxed', ['C02'],
+  [(READER, 'let mut first_gen = generation.load(atomic::Ordering::Acquire);', 'let mut first_gen = generation.load(atomic::Ordering::Relaxed);')],
+  {'C02': ['C02.S2']})
+M('M02e', 'writer: record written before the odd store', ['C02', 'C11'],
+  [(WRITER, '''            generation.store(gen, atomic::Ordering::Release);
+
+            // A release store''', '''            self.ceb.write(*ceb);
+            generation.store(gen, atomic::Ordering::Release);
+
+            // A release store''')], {'C02': ['C02.S1'], 'C11': ['C11.P4']})
+M('M02f', 'reader: accepts on inequality', ['C02'],
+  [(READER, 'if first_gen == second_gen {', 'if first_gen != second_gen {')], {'C02': ['C02.S2']})
+M('M02g', 'reader: accept returns a reference into shared memory', ['C02'],
+  [(READER, '''                self.snapshot_ceb = snapshot;
+                return Ok(&self.snapshot_ceb);''', '''                self.snapshot_ceb = snapshot;
+                return Ok(unsafe { &*self.ceb_shm });''')], {'C02': ['C02.S3']})
+M('M02h', 'writer: compiler_fence instead of fence', ['C02'],
+  [(WRITER, FENCE_W, '            atomic::compiler_fence(atomic::Ordering::Release);\n')], {'C02': ['C02.S1']})
+M('M02i', 'reader maps the segment writable', ['C02'],
+  [(READER, '                libc::PROT_READ,', '                libc::PROT_READ | libc::PROT_WRITE,')], {'C02': ['C02.S4']})
+M('M02j', 'reader: odd check dropped in the fast path', ['C02', 'C03'],
+  [(READER, '''        if first_gen & 0x0001 == 1 {
+            return Ok(&self.snapshot_ceb);
+        }
+''', '')], {'C02': ['C02.S2'], 'C03': ['C03.G1']})
+M('M02k', 'a second writer of the record in ShmWriter::new', ['C02', 'C04'],
+  [(WRITER, '''            version.store(1_u16, atomic::Ordering::Relaxed);
+        }''', '''            version.store(1_u16, atomic::Ordering::Relaxed);
+            writer.ceb.write(ClockErrorBound::default());
+        }''')], {'C02': ['C02.S4'], 'C04': ['C04.T3']})
+E('E02a', 'SeqCst everywhere and an extra fence', ['C02', 'C11', 'C03', 'C18'],
+  [(WRITER, FENCE_W, '            atomic::fence(atomic::Ordering::SeqCst);\n            atomic::fence(atomic::Ordering::Release);\n'),
+   (READER, FENCE_R, '            atomic::fence(atomic::Ordering::SeqCst);\n')])
+E('E02b', 'parity tests spelled with % 2 and | 1', ['C02', 'C11', 'C03', 'C04'],
+  [(WRITER, 'let gen = if gen & 0x0001 == 0 {', 'let gen = if gen % 2 == 0 {'),
+   (READER, 'if first_gen & 0x0001 == 1 {', 'if first_gen % 2 != 0 {')])
+
+# ---------------------------------------------------------------- C03
+M('M03a', 'cache served when generation <= cached generation', ['C03'],
+  [(READER, 'if first_gen == self.snapshot_gen {', 'if first_gen <= self.snapshot_gen {')], {'C03': ['C03.G1']})
+M('M03c', 'cached generation updated before the loop', ['C03'],
+  [(READER, '        let mut retries = 1_000_000;', '        self.snapshot_gen = first_gen;\n        let mut retries = 1_000_000;')], {'C03': ['C03.G2']})
+M('M03d', 'after the retry loop the cache is returned as Ok', ['C03', 'C18'],
+  [(READER, '        // Attempts to read the snapshot have failed.\n        Err(ShmError::SegmentNotInitialized)', '        Ok(&self.snapshot_ceb)')],
+  {'C03': ['C03.G3']})
+M('M03e', 're-loaded generation adopted even if odd', ['C03'],
+  [(READER, '''                if second_gen & 0x0001 == 0 {
+                    first_gen = second_gen;
+                }''', '''                first_gen = second_gen;''')], {'C03': ['C03.G4']})
+E('E03a', 'early guards merged into one condition and reordered', ['C03', 'C02', 'C18'],
+  [(READER, '''        if first_gen == 0 {
+            return Ok(&self.snapshot_ceb);
+        }
+''', ''),
+   (READER, 'if first_gen == self.snapshot_gen {', 'if first_gen == self.snapshot_gen || first_gen == 0 {')])
+
+# ---------------------------------------------------------------- C04
+M('M04a', 'new() wipes unconditionally', ['C04'],
+  [(WRITER, '        if ShmWriter::is_usable_segment(path).is_err() {', '        let _ = ShmWriter::is_usable_segment(path);\n        {')], {'C04': ['C04.T1']})
+M('M04b', 'write() always increments (odd start becomes even during the copy)', ['C04', 'C11'],
+  [(WRITER, '''            let gen = if gen & 0x0001 == 0 {
+                // This should be the most common case
+                gen.wrapping_add(1)
+            } else {
+                gen
+            };''', '''            let gen = gen.wrapping_add(1);''')], {'C11': ['C11.P1'], 'C04': ['C04.T4']})
+M('M04c', 'new() also resets the generation', ['C04', 'C11'],
+  [(WRITER, '''            version.store(1_u16, atomic::Ordering::Relaxed);
+        }''', '''            version.store(1_u16, atomic::Ordering::Relaxed);
+            (&*writer.generation).store(0_u16, atomic::Ordering::Relaxed);
+        }''')], {'C04': ['C04.T3'], 'C11': ['C11.P5']})
+M('M04d', 'mapping open creates/truncates the file', ['C04'],
+  [(WRITER, '            nix::fcntl::OFlag::O_RDWR,', '            nix::fcntl::OFlag::O_RDWR | nix::fcntl::OFlag::O_CREAT | nix::fcntl::OFlag::O_TRUNC,')], {'C04': ['C04.T2']})
+M('M04e', 'wipe leaves version 1', ['C04'],
+  [(WRITER, '        file.write_u16::<NativeEndian>(0)?; // Version', '        file.write_u16::<NativeEndian>(1)?; // Version')], {'C04': ['C04.T6']})
+M('M04f', 'probe inverted: wipes when usable', ['C04'],
+  [(WRITER, 'if ShmWriter::is_usable_segment(path).is_err() {', 'if ShmWriter::is_usable_segment(path).is_ok() {')], {'C04': ['C04.T1']})
+
+# ---------------------------------------------------------------- C07 (post-fix)
+M('M07b', 'abs() dropped again', ['C07', 'C01'],
+  [(D_SHMW, 'f64::from(tracking.current_correction).abs();', 'f64::from(tracking.current_correction);')], {'C07': ['C07.F2'], 'C01': ['C01.I']})
+M('M07c', 'floor instead of ceil', ['C07'], [(D_SHMW, '* 1_000_000_000.0).ceil() as i64;', '* 1_000_000_000.0).floor() as i64;')], {'C07': ['C07.F3']})
+M('M07d', 'root delay not halved', ['C07'], [(D_SHMW, '((root_delay / 2. + root_dispersion', '((root_delay + root_dispersion')], {'C07': ['C07.F1']})
+M('M07e', 'max(0) instead of abs', ['C07'],
+  [(D_SHMW, 'f64::from(tracking.current_correction).abs();', 'f64::from(tracking.current_correction).max(0.0);')], {'C07': ['C07.F1', 'C07.F2']})
+M('M07f', 'dispersion dropped', ['C07'], [(D_SHMW, '((root_delay / 2. + root_dispersion + current_correction)', '((root_delay / 2. + current_correction)')], {'C07': ['C07.F1']})
+M('M07g', 'scaled to microseconds', ['C07'], [(D_SHMW, '* 1_000_000_000.0).ceil()', '* 1_000_000.0).ceil()')], {'C07': ['C07.F1']})
+M('M07h', 'PHC error bound subtracted', ['C07'], [(D_SHMW, '        bound_nsec += phc_error_bound;', '        bound_nsec -= phc_error_bound;')], {'C07': ['C07.F4']})
+E('E07a', '0.5 * delay and reordered summands', ['C07', 'C10', 'C08'],
+  [(D_SHMW, '((root_delay / 2. + root_dispersion + current_correction)', '((current_correction + 0.5 * root_delay + root_dispersion)')])
+
+# ---------------------------------------------------------------- C08
+M('M08a', 'as-of assigned on every report', ['C08'],
+  [(D_SHMW, '''            self.bound_nsec = bound_nsec;
+            self.as_of = as_of;
+            self.has_measurement = true;
+        }''', '''            self.bound_nsec = bound_nsec;
+            self.has_measurement = true;
+        }
+        self.as_of = as_of;''')], {'C08': ['C08.A']})
+M('M08b', 'guard != Unknown instead of == Synchronized', ['C08'],
+  [(D_SHMW, 'if clock_status == ChronyClockStatus::Synchronized {', 'if clock_status != ChronyClockStatus::Unknown {')], {'C08': ['C08.A']})
+M('M08c', 'void_after 10000 s', ['C08'], [(D_SHMW, 'tv_sec: self.as_of.tv_sec + 1000,', 'tv_sec: self.as_of.tv_sec + 10000,')], {'C08': ['C08.B']})
+M('M08d', 'no publication for grace-period outages', ['C08'],
+  [(D_SHMW, '''        self.shm_clock_state = self.shm_clock_state.apply_chrony(chrony_status);
+
+        // Finally write the new CEB out to shared memory.
+        self.write_clock_error_bound();''', '''        self.shm_clock_state = self.shm_clock_state.apply_chrony(chrony_status);
+
+        // Finally write the new CEB out to shared memory.
+        if !within_grace_period {
+            self.write_clock_error_bound();
+        }''')], {'C08': ['C08.G']})
+M('M08e', 'PHC failure in grace dispatched as beyond grace', ['C08'],
+  [(D_SHMW, '''            Ok(Message::PhcErrorBoundRetrievalFailedGracePeriod) => {
+                updater.process_missing_clock_update(true)''', '''            Ok(Message::PhcErrorBoundRetrievalFailedGracePeriod) => {
+                updater.process_missing_clock_update(false)''')], {'C08': ['C08.F']})
+M('M08f', 'FSM: FreeRunning state ignores an Unknown input', ['C08'],
+  [(D_FSM, '''impl FSMTransition for ShmClockState<FreeRunning> {
+    /// Implement the transitions from the FreeRunning FSM state.
+    fn transition(&self, chrony: ChronyClockStatus) -> Box<dyn FSMState> {
+        match chrony {
+            ChronyClockStatus::Unknown => bstate!(Unknown),''', '''impl FSMTransition for ShmClockState<FreeRunning> {
+    /// Implement the transitions from the FreeRunning FSM state.
+    fn transition(&self, chrony: ChronyClockStatus) -> Box<dyn FSMState> {
+        match chrony {
+            ChronyClockStatus::Unknown => bstate!(FreeRunning),''')], {'C08': ['C08.D']})
+M('M08g', 'missing update within grace mapped to Unknown', ['C08'],
+  [(D_SHMW, '''            true => ChronyClockStatus::FreeRunning,
+            false => ChronyClockStatus::Unknown,''', '''            true => ChronyClockStatus::Unknown,
+            false => ChronyClockStatus::FreeRunning,''')], {'C08': ['C08.F']})
+M('M08h', 'drift overwritten by a handler', ['C08', 'C19'],
+  [(D_SHMW, '            self.has_measurement = true;\n        }', '            self.has_measurement = true;\n            self.max_drift_ppb = 1000;\n        }')], {'C08': ['C08.C']})
+E('E08a', 'match instead of if on the grace flag; log text changed', ['C08', 'C09', 'C13'],
+  [(D_SHMW, '''        let chrony_status = match within_grace_period {
+            true => ChronyClockStatus::FreeRunning,
+            false => ChronyClockStatus::Unknown,
+        };''', '''        let chrony_status = if within_grace_period {
+            ChronyClockStatus::FreeRunning
+        } else {
+            ChronyClockStatus::Unknown
+        };'''),
+   (D_SHMW, 'debug!("Received missing clock update message");', 'debug!("missing clock update");')])
+
+# ---------------------------------------------------------------- C09 (post-fix)
+M('M09a', 'gate removed', ['C09', 'C01'],
+  [(D_SHMW, '''        let clock_status = if self.has_measurement {
+            self.shm_clock_state.value()
+        } else {
+            ClockStatus::Unknown
+        };''', '''        let clock_status = self.shm_clock_state.value();''')], {'C09': ['C09.Q1'], 'C01': ['C01.I']})
+M('M09b', 'gate opened by any report', ['C09'],
+  [(D_SHMW, '''            self.as_of = as_of;
+            self.has_measurement = true;
+        }''', '''            self.as_of = as_of;
+        }
+        self.has_measurement = true;''')], {'C09': ['C09.Q1']})
+M('M09c', 'gate starts open', ['C09'], [(D_SHMW, '            has_measurement: false,', '            has_measurement: true,')], {'C09': ['C09.Q1']})
+M('M09d', 'poller starts inside the grace period', ['C09', 'C13'],
+  [(D_POLL, '''            last_tracking_data: Instant::now()
+                .checked_sub(CHRONY_RESTART_GRACE_PERIOD)
+                .unwrap(),''', '''            last_tracking_data: Instant::now(),''')], {'C09': ['C09.Q2'], 'C13': ['C13.P1']})
+E('E09a', 'gate expressed with an Option', ['C09', 'C08'],
+  [(D_SHMW, '    has_measurement: bool,\n}', '    has_measurement: Option<()>,\n}'),
+   (D_SHMW, '            has_measurement: false,', '            has_measurement: None,'),
+   (D_SHMW, 'let clock_status = if self.has_measurement {', 'let clock_status = if self.has_measurement.is_some() {'),
+   (D_SHMW, '            self.has_measurement = true;', '            self.has_measurement = Some(());')])
+
+# ---------------------------------------------------------------- C10
+M('M10a', 'leap 3 counted as synchronised', ['C10'], [(D_LIB, '            0..=2 => Self::Synchronized,', '            0..=3 => Self::Synchronized,')], {'C10': ['C10.L1', 'C10.L4']})
+M('M10b', '8 -> 80 intervals', ['C10'], [(D_SHMW, '(polling_period * 8.0) as u64', '(polling_period * 80.0) as u64')], {'C10': ['C10.L2']})
+M('M10c', 'future reference time -> FreeRunning', ['C10'],
+  [(D_SHMW, 'return (bound_nsec, ChronyClockStatus::Unknown);', 'return (bound_nsec, ChronyClockStatus::FreeRunning);')], {'C10': ['C10.L3']})
+M('M10d', 'staleness also degrades leap 3 to Unknown', ['C10'],
+  [(D_SHMW, '        status => status,\n    };', '        ChronyClockStatus::FreeRunning if duration_since_update > empty_register_timeout => ChronyClockStatus::Unknown,\n        status => status,\n    };')],
+  {'C10': ['C10.L4']})
+M('M10e', 'stale compares the last offset age instead of the ref time', ['C10'],
+  [(D_SHMW, 'let polling_period = f64::from(tracking.last_update_interval);', 'let polling_period = f64::from(tracking.rms_offset);')], {'C10': ['C10.L2']})
+
+# ---------------------------------------------------------------- C11
+M('M11a', 'wrap check removed', ['C11', 'C02'], [(WRITER, '            if gen == 0 {\n                gen = 2\n            }\n', '')], {'C11': ['C11.P2']})
+M('M11b', 'wrap to 1', ['C11'], [(WRITER, '                gen = 2\n', '                gen = 1\n')], {'C11': ['C11.P2']})
+M('M11c', 'completion adds 2', ['C11'], [(WRITER, 'let mut gen = gen.wrapping_add(1);', 'let mut gen = gen.wrapping_add(2);')], {'C11': ['C11.P2']})
+M('M11d', 'wrap test off by one', ['C11'], [(WRITER, '            if gen == 0 {\n                gen = 2', '            if gen == 1 {\n                gen = 2')], {'C11': ['C11.P2']})
+
+# ---------------------------------------------------------------- C13
+M('M13b', 'grace period 50 s', ['C13'], [(D_POLL, 'const CHRONY_RESTART_GRACE_PERIOD: Duration = Duration::from_secs(5);', 'const CHRONY_RESTART_GRACE_PERIOD: Duration = Duration::from_secs(50);')], {'C13': ['C13.P2']})
+M('M13c', 'instant refreshed on a non-tracking reply', ['C13'],
+  [(D_POLL, '''                    error!(
+                        "Reply from chronyd was invalid. Expected tracking data but got: {:?}",
+                        reply
+                    );
+                    None''', '''                    self.last_tracking_data = Instant::now();
+                    None''')], {'C13': ['C13.P3']})
+M('M13d', 'PHC bound attached when ids differ', ['C13'],
+  [(D_POLL, 'Some(phc_info) if phc_info.refid == tracking.ref_id => {', 'Some(phc_info) if phc_info.refid != tracking.ref_id => {')], {'C13': ['C13.P5']})
+M('M13e', 'grace and non-grace swapped for a silent chronyd', ['C13'],
+  [(D_POLL, '''                        if poller.is_within_grace_period() {
+                            Message::ChronyNotRespondingGracePeriod
+                        } else {
+                            Message::ChronyNotResponding
+                        }''', '''                        if poller.is_within_grace_period() {
+                            Message::ChronyNotResponding
+                        } else {
+                            Message::ChronyNotRespondingGracePeriod
+                        }''')], {'C13': ['C13.P4']})
+M('M13f', 'PHC read failure still reports the tracking data', ['C13'],
+  [(D_POLL, '''                                    if poller.is_within_grace_period() {
+                                        Message::PhcErrorBoundRetrievalFailedGracePeriod
+                                    } else {''', '''                                    if poller.is_within_grace_period() {
+                                        Message::ClockErrorBoundData((tracking, 0, as_of))
+                                    } else {''')], {'C13': ['C13.P4']})
+
+# ---------------------------------------------------------------- C15
+M('M15a', 'ThreadTerminate arm leaves without broadcast', ['C15'],
+  [(D_TM, '''                error!("Received terminate message from {:?}", channel_id);
+                broadcast_abort(dispatchbox.clone());
+                break;''', '''                error!("Received terminate message from {:?}", channel_id);
+                break;''')], {'C15': ['C15.N3']})
+M('M15b', 'ThreadPanic arm continues', ['C15'],
+  [(D_TM, '''                error!("Received panic message from {:?}", channel_id);
+                broadcast_abort(dispatchbox.clone());
+                break;''', '''                error!("Received panic message from {:?}", channel_id);
+                broadcast_abort(dispatchbox.clone());
+                continue;''')], {'C15': ['C15.N3']})
+M('M15c', 'broadcast filter inverted', ['C15'], [(D_TM, '.filter(|chan| **chan != ChannelId::MainThread)', '.filter(|chan| **chan == ChannelId::MainThread)')], {'C15': ['C15.N4']})
+M('M15d', 'Drop for Context reports only panics', ['C15'],
+  [(D_TM, '''        match self.dbox.send(&ChannelId::MainThread, message) {''', '''        if !panicking() {
+            return;
+        }
+        match self.dbox.send(&ChannelId::MainThread, message) {''')], {'C15': ['C15.N1']})
+M('M15e', 'broadcast iterator not consumed', ['C15'],
+  [(D_TM, '''    let _res: Vec<_> = dispatchbox
+        .keys()
+        .filter(|chan| **chan != ChannelId::MainThread)
+        .map(|chan| dispatchbox.send(chan, Message::ThreadAbort))
+        .collect();''', '''    let _res = dispatchbox
+        .keys()
+        .filter(|chan| **chan != ChannelId::MainThread)
+        .map(|chan| dispatchbox.send(chan, Message::ThreadAbort));''')], {'C15': ['C15.N4']})
+M('M15g', 'poll wait of one hour', ['C15'], [(D_POLL, 'let sleep = Duration::from_millis(1000);', 'let sleep = Duration::from_secs(3600);')], {'C15': ['C15.N6']})
+M('M15h', 'writer loop ignores ThreadAbort', ['C15'],
+  [(D_SHMW, '''                info!("Received message to stop shm writer thread");
+                keep_running = false;''', '''                info!("Received message to stop shm writer thread");''')], {'C15': ['C15.N5']})
+M('M15i', 'poller context leaked', ['C15'],
+  [(D_POLL, '    run_clock_error_bound_poller(ctx, poller, phc_info, sleep);', '    run_clock_error_bound_poller(ctx, poller, phc_info, sleep);\n'),
+   (D_POLL, '''            Err(e) => error!("Error reading from MPSC channel: {:?}", e),
+        }
+    }
+}''', '''            Err(e) => error!("Error reading from MPSC channel: {:?}", e),
+        }
+    }
+    std::mem::forget(ctx);
+}''')], {'C15': ['C15.N2']})
+M('M15j', 'mailboxes of the two workers swapped', ['C15', 'C01'],
+  [(D_TM, '''    let mbox = match mailbox.get_mailbox(&ChannelId::ClockErrorBoundPoller) {
+        Some(mbox) => mbox,''', '''    let mbox = match mailbox.get_mailbox(&ChannelId::ShmWriter) {
+        Some(mbox) => mbox,'''),
+   (D_TM, '''    let mbox = match mailbox.get_mailbox(&ChannelId::ShmWriter) {
+        Some(mbox) => mbox,
+        None => unimplemented!(
+            "Implementation error: no MPSC channel found for {:?}",
+            ChannelId::ShmWriter
+        ),
+    };
+    let ctx = Context {
+        mbox,
+        dbox: dispatchbox.clone(),
+        channel_id: ChannelId::ShmWriter,''', '''    let mbox = match mailbox.get_mailbox(&ChannelId::ClockErrorBoundPoller) {
+        Some(mbox) => mbox,
+        None => unimplemented!(
+            "Implementation error: no MPSC channel found for {:?}",
+            ChannelId::ShmWriter
+        ),
+    };
+    let ctx = Context {
+        mbox,
+        dbox: dispatchbox.clone(),
+        channel_id: ChannelId::ShmWriter,''')], {'C15': ['C15.N2']})
+M('M15k', 'handles not joined', ['C15'],
+  [(D_TM, '    for handle in thread_handlers {\n        let _ = handle.join();\n    }', '    drop(thread_handlers);')], {'C15': ['C15.N3']})
+
+# ---------------------------------------------------------------- C16
+M('M16b', 'reader: header+record size test removed', ['C16'],
+  [(READER, '''        if mmap_guard.segsize < size_of::<ShmHeader>() + size_of::<ClockErrorBound>() {
+            return Err(ShmError::SegmentMalformed);
+        }
+''', '')], {'C16': ['C16.V1', 'C16.V3']})
+M('M16c', 'short read reported as malformed', ['C16'],
+  [(HEADER, '''            ret if (ret as usize) < size_of::<ShmHeader>() => {
+                return Err(ShmError::SegmentNotInitialized)''', '''            ret if (ret as usize) < size_of::<ShmHeader>() => {
+                return Err(ShmError::SegmentMalformed)''')], {'C16': ['C16.V2']})
+M('M16d', 'generation 0 accepted on open', ['C16'],
+  [(HEADER, '''        if !self.is_initialized() {
+            return Err(ShmError::SegmentNotInitialized);
+        }
+''', '')], {'C16': ['C16.V1']})
+M('M16e', 'bad magic reported as malformed', ['C16'],
+  [(HEADER, '''        if !self.matches_magic(&SHM_MAGIC) {
+            return Err(ShmError::SegmentNotInitialized);''', '''        if !self.matches_magic(&SHM_MAGIC) {
+            return Err(ShmError::SegmentMalformed);''')], {'C16': ['C16.V1']})
+M('M16f', 'size test only covers the record', ['C16'],
+  [(READER, 'if mmap_guard.segsize < size_of::<ShmHeader>() + size_of::<ClockErrorBound>() {', 'if mmap_guard.segsize < size_of::<ClockErrorBound>() {')], {'C16': ['C16.V1', 'C16.V3']})
+M('M16g', 'wipe declares a size smaller than what new() maps', ['C16'],
+  [(WRITER, '        file.write_u32::<NativeEndian>(size)?; // Segsize', '        file.write_u32::<NativeEndian>(size - 8)?; // Segsize')], {'C16': ['C16.V4']})
+
+# ---------------------------------------------------------------- C17
+M('M17a', 'two record fields swapped', ['C17'],
+  [(SHM_LIB, '''    bound_nsec: i64,
+
+    /// Maximum drift rate''', '''    reserved1: u32,
+
+    /// Maximum drift rate'''),
+   (SHM_LIB, '''    /// Place-holder that is reserved for future use.
+    reserved1: u32,
+
+    /// The synchronization daemon status''', '''    /// Place-holder that is reserved for future use.
+    bound_nsec: i64,
+
+    /// The synchronization daemon status''')], {'C17': ['C17.Y1']})
+M('M17b', 'FFI status enum reordered (mapping by name kept)', ['C17', 'C06'],
+  [(FFI, '''    CLOCKBOUND_STA_UNKNOWN,
+    CLOCKBOUND_STA_SYNCHRONIZED,
+    CLOCKBOUND_STA_FREE_RUNNING,
+}''', '''    CLOCKBOUND_STA_UNKNOWN,
+    CLOCKBOUND_STA_FREE_RUNNING,
+    CLOCKBOUND_STA_SYNCHRONIZED,
+}''')], {'C17': ['C17.Y3'], 'C06': ['C06.D4']})
+M('M17c', 'FFI errno widened to i64', ['C17'],
+  [(FFI, '    pub errno: i32,', '    pub errno: i64,'), (FFI, '            ShmError::SyscallError(errno, _) => errno.0,', '            ShmError::SyscallError(errno, _) => errno.0 as i64,')],
+  {'C17': ['C17.Y3']})
+M('M17d', 'record loses repr(C)', ['C17'],
+  [(SHM_LIB, '#[repr(C)]\n#[derive(Debug, Copy, Clone, PartialEq)]\npub struct ClockErrorBound {', '#[derive(Debug, Copy, Clone, PartialEq)]\npub struct ClockErrorBound {')], {'C17': ['C17.Y1']})
+M('M17e', 'daemon writes to a different default path', ['C17', 'C01'],
+  [(D_SHMW, 'const CLOCKBOUND_SHM_DEFAULT_PATH: &str = "/var/run/clockbound/shm";', 'const CLOCKBOUND_SHM_DEFAULT_PATH: &str = "/var/run/clockbound/shm0";')], {'C17': ['C17.Y8'], 'C01': ['C01.W4']})
+M('M17f', 'status discriminants renumbered', ['C17'],
+  [(SHM_LIB, '    Synchronized = 1,', '    Synchronized = 2,'), (SHM_LIB, '    FreeRunning = 2,', '    FreeRunning = 1,')], {'C17': ['C17.Y2']})
+M('M17g', 'clockbound_close takes the context by value pointer to pointer', ['C17'],
+  [(FFI, 'pub unsafe extern "C" fn clockbound_close(ctx: *mut clockbound_ctx) -> *const clockbound_err {\n    std::mem::drop(Box::from_raw(ctx));',
+    'pub unsafe extern "C" fn clockbound_close(ctx: *mut *mut clockbound_ctx) -> *const clockbound_err {\n    std::mem::drop(Box::from_raw(*ctx));')], {'C17': ['C17.Y4']})
+
+# ---------------------------------------------------------------- C18
+M('M18a', 'retry counter never decremented', ['C18'], [(READER, '            retries -= 1;\n', '')], {'C18': ['C18.B1']})
+M('M18b', 'uncapped retry loop', ['C18'],
+  [(READER, '        while retries > 0 {', '        loop {'), (READER, '            retries -= 1;\n', '            retries -= 0;\n')], {'C18': ['C18.B1']})
+M('M18c', 'decrement only when the generation was odd', ['C18'],
+  [(READER, '''                if second_gen & 0x0001 == 0 {
+                    first_gen = second_gen;
+                }
+            }
+            retries -= 1;''', '''                if second_gen & 0x0001 == 0 {
+                    first_gen = second_gen;
+                } else {
+                    retries -= 1;
+                }
+            }''')], {'C18': ['C18.B1']})
+M('M18d', 'reader sleeps between retries', ['C18'],
+  [(READER, '            retries -= 1;\n', '            retries -= 1;\n            std::thread::sleep(std::time::Duration::from_millis(1));\n')], {'C18': ['C18.B3']})
+M('M18e', 'odd generation waits for the writer', ['C18', 'C03'],
+  [(READER, '''        if first_gen & 0x0001 == 1 {
+            return Ok(&self.snapshot_ceb);
+        }''', '''        while first_gen & 0x0001 == 1 {
+            first_gen = generation.load(atomic::Ordering::Acquire);
+        }''')], {'C18': ['C18.B1', 'C18.B2']})
+
+# ---------------------------------------------------------------- C19 (post-fix)
+CHK = '''        Some(rate) => rate.checked_mul(1000).ok_or_else(|| {
+            format!(
+                "The max drift rate of {} ppm is too large to be expressed in ppb",
+                rate
+            )
+        })?,'''
+M('M19a', 'plain multiply again', ['C19'], [(D_MAIN, CHK, '        Some(rate) => rate * 1000,')], {'C19': ['C19.R1']})
+M('M19b', 'saturating multiply', ['C19'], [(D_MAIN, CHK, '        Some(rate) => rate.saturating_mul(1000),')], {'C19': ['C19.R3']})
+M('M19c', 'wrapping multiply', ['C19'], [(D_MAIN, CHK, '        Some(rate) => rate.wrapping_mul(1000),')], {'C19': ['C19.R3']})
+M('M19d', 'default 1 ppb instead of 1000', ['C19'], [(D_MAIN, 'pub const DEFAULT_MAX_DRIFT_RATE_PPB: u32 = 1000;', 'pub const DEFAULT_MAX_DRIFT_RATE_PPB: u32 = 1;')], {'C19': ['C19.R2']})
+M('M19e', 'scale 100', ['C19'], [(D_MAIN, 'rate.checked_mul(1000)', 'rate.checked_mul(100)')], {'C19': ['C19.R2']})
+M('M19f', 'unrepresentable rate falls back to the default', ['C19'], [(D_MAIN, CHK, '        Some(rate) => rate.checked_mul(1000).unwrap_or(DEFAULT_MAX_DRIFT_RATE_PPB),')], {'C19': ['C19.R1', 'C19.R3']})
+M('M19g', 'writer thread given the default instead of the configured rate', ['C19', 'C01'],
+  [(D_TM, 'thread_handlers.push(spawn(move || shm_writer::run(ctx, max_drift_ppb)));', 'let _ = max_drift_ppb;\n    thread_handlers.push(spawn(move || shm_writer::run(ctx, 1000)));')], {'C19': ['C19.R4']})
+E('E19a', 'guarded plain multiply', ['C19'],
+  [(D_MAIN, CHK, '''        Some(rate) => {
+            if rate > u32::MAX / 1000 {
+                return Err(format!("The max drift rate of {} ppm is too large", rate));
+            }
+            rate * 1000
+        }''')])
+
+# ---------------------------------------------------------------- C01 wiring
+M('M01b', 'poller stamps as-of with CLOCK_REALTIME', ['C01', 'C12'],
+  [(D_POLL, 'match clock_gettime_safe(CLOCK_MONOTONIC) {', 'match clock_gettime_safe(clock_bound_shm::common::CLOCK_REALTIME) {')], {'C01': ['C01.W2']})
+M('M01c', 'client measures age with CLOCK_MONOTONIC_RAW', ['C01'],
+  [(SHM_LIB, 'let mono = clock_gettime_safe(CLOCK_MONOTONIC)?;', 'let mono = clock_gettime_safe(libc::CLOCK_MONOTONIC_RAW)?;')], {'C01': ['C01.W2']})
+M('M01d', 'FFI evaluates now() on a stale default record', ['C01'],
+  [(FFI, '    let (earliest, latest, clock_status) = match ceb_snap.now() {', '    let _ = ceb_snap;\n    let (earliest, latest, clock_status) = match ClockErrorBound::default().now() {')], {'C01': ['C01.W3']})
+M('M01e', 'poller sends its outcomes to the main thread', ['C01'],
+  [(D_POLL, 'match ctx.dbox.send(&ChannelId::ShmWriter, message) {', 'match ctx.dbox.send(&ChannelId::MainThread, message) {')], {'C01': ['C01.W1']})
+M('M01f', 'writer maps the record 8 bytes further', ['C01'],
+  [(WRITER, 'let ceb: *mut ClockErrorBound = addr.add(size_of::<ShmHeader>()).cast();', 'let ceb: *mut ClockErrorBound = addr.add(size_of::<ShmHeader>() + 8).cast();')], {'C01': ['C01.W5']})
